@@ -270,6 +270,17 @@ func decodeGrid(c *Ctx) []decIn {
 			rec(nil, 0)
 		}
 	}
+	// graph6: every data byte (combination) for n = 2..5, i.e. every adjacency bit pattern together with every value of the padding bits
+	for n := 2; n <= 5; n++ {
+		nb := (n*(n-1)/2 + 5) / 6
+		for v := 0; v < 1<<uint(6*nb); v++ {
+			str := []int{63 + n}
+			for k := nb - 1; k >= 0; k-- {
+				str = append(str, 63+(v>>uint(6*k))&63)
+			}
+			out = append(out, decIn{"g6", str})
+		}
+	}
 	for _, s := range []string{"", ":", "~", "~~", ":~", ":~~", "~?", ":~?", "~??", "~~?????", ":~~?????", ">>graph6<<", ">>sparse6<<", ">>sparse6<<:", ">>graph6<<~", ":?", ":@", ":A", ":A_", ":An", ":B", ":Bo", ":~?@A", "~?@A", "~@??", ":~@??", "~@?@", ":~@?@"} {
 		out = append(out, decIn{"g6", bytesJ(s)}, decIn{"s6", bytesJ(s)})
 	}
